@@ -51,6 +51,8 @@ typedef struct { uint8_t* buf; size_t* sizes; unsigned nb; size_t total; } Sampl
 static void make_samples(Samples* s, const Plan* p) {
     Rng r; unsigned nb = (unsigned)plan_get(p, "nb", 10), k; size_t total = (size_t)plan_get(p, "total", 10000), pos = 0; int const kind = (int)plan_get(p, "set_kind", 7);
     rng_seed(&r, (uint64_t)plan_get(p, "in_seed", 1), "samples");
+    /* the legacy trainer is quadratic on copies of one sample (345 KB in 4 identical samples: 146 s, finite): keep that shape below the per-run CPU cap */
+    if ((int)plan_get(p, "alg", 0) == A_LEGACY && (kind == 3 || kind == 4) && total > (48u << 10)) total = 48u << 10;
     if (kind == 0) nb = 0; else if (kind == 1) nb = 1; else if (kind == 2) { nb = 1 + (unsigned)rng_below(&r, 5); total = rng_below(&r, 40); } else if (kind == 5) total = rng_below(&r, 600);
     s->buf = (uint8_t*)sim_buf_new(total ? total : 1); s->sizes = (size_t*)malloc((nb + 1) * sizeof(size_t)); s->nb = nb; s->total = 0;
     gen_input(&r, (int)plan_get(p, "in_kind", 0), s->buf, total);
